@@ -30,7 +30,7 @@ func main() {
 		os.Exit(2)
 	}
 	t0 := time.Now()
-	debug.SetGCPercent(800)
+	debug.SetGCPercent(100)
 	verifDir := os.Getenv("VERIF_DIR")
 	if verifDir == "" {
 		verifDir = "/verif"
@@ -55,7 +55,7 @@ func main() {
 		fmt.Println("To re-run the rule on the current tree: ./check", cmd, "quick")
 		return
 	}
-	p, err := load.Load(dir)
+	p, err := load.Load(dir, "verif/sa/selftest/positive")
 	if err != nil {
 		failClosed(cmd, verifDir, "load", err)
 	}
@@ -93,6 +93,28 @@ func main() {
 			for _, k := range keys {
 				fmt.Println("  inv", k)
 			}
+		}
+		return
+	}
+	if cmd == "eval" && len(os.Args) >= 4 {
+		w, err := world.Build(p)
+		if err != nil {
+			fmt.Fprintln(os.Stderr, "world:", err)
+			os.Exit(2)
+		}
+		for _, l := range checks.DebugEval(&checks.Ctx{P: p, W: w, Tier: "quick"}, os.Args[2], os.Args[3]) {
+			fmt.Println(l)
+		}
+		return
+	}
+	if cmd == "decoder" {
+		w, err := world.Build(p)
+		if err != nil {
+			fmt.Fprintln(os.Stderr, "world:", err)
+			os.Exit(2)
+		}
+		for _, l := range checks.DumpDecoder(&checks.Ctx{P: p, W: w, Tier: "quick"}) {
+			fmt.Println(l)
 		}
 		return
 	}
